@@ -1,8 +1,10 @@
 package main
 
-// Goroutines, channels, mutexes: sync-point scheduler (mechanism B).
-// A goroutine runs until it blocks or finishes; at each blocking point / spawn the
-// engine forks over the enabled goroutines (bounded by verifrt.SchedBound).
+// Goroutines, channels, mutexes, timers: a sync-point scheduler (DESIGN §2.5 mechanism B).
+// A goroutine runs until it blocks, finishes, or reaches a synchronisation operation at which a
+// (budgeted) voluntary switch is explored. Every choice of the next goroutine forks the path.
+// The path ends when the main goroutine (0) returns; if the main goroutine is blocked and nothing
+// can run, that is reported as a deadlock (this is how "never hangs" becomes a safety assertion).
 
 import (
 	"fmt"
@@ -11,15 +13,45 @@ import (
 	"golang.org/x/tools/go/ssa"
 )
 
+type waitDesc struct {
+	kind string // recv send select lock wg timer
+	objs []int
+	send []bool
+	key  string
+}
+
 func addSyncIntrinsics() {
-	lockNoop := func(e *Engine, s *State, f *Frame, fn *ssa.Function, args []Value, retIdx int, advance bool) (Value, bool) {
-		return nil, true
-	}
-	for _, n := range []string{"(*sync.Mutex).Lock", "(*sync.RWMutex).Lock", "(*sync.RWMutex).RLock"} {
+	for _, n := range []string{"(*sync.Mutex).Lock", "(*sync.RWMutex).Lock"} {
 		intrinsics[n] = mutexLock
 	}
-	for _, n := range []string{"(*sync.Mutex).Unlock", "(*sync.RWMutex).Unlock", "(*sync.RWMutex).RUnlock"} {
+	for _, n := range []string{"(*sync.Mutex).Unlock", "(*sync.RWMutex).Unlock"} {
 		intrinsics[n] = mutexUnlock
+	}
+	// read locks: shared; modelled as a counter that excludes writers
+	intrinsics["(*sync.RWMutex).RLock"] = func(e *Engine, s *State, f *Frame, fn *ssa.Function, args []Value, retIdx int, advance bool) (Value, bool) {
+		k := "lock:" + ptrKey(args[0].(*Pointer))
+		if s.ghost[k] > 0 {
+			e.block(s, &waitDesc{kind: "lock", key: k})
+			return tailCall, true
+		}
+		s.ghost[k]-- // negative = number of readers
+		return nil, true
+	}
+	intrinsics["(*sync.RWMutex).RUnlock"] = func(e *Engine, s *State, f *Frame, fn *ssa.Function, args []Value, retIdx int, advance bool) (Value, bool) {
+		k := "lock:" + ptrKey(args[0].(*Pointer))
+		if s.ghost[k] >= 0 {
+			e.fail(s, "panic", "sync: RUnlock of unlocked RWMutex")
+		}
+		s.ghost[k]++
+		return nil, true
+	}
+	intrinsics["(*sync.RWMutex).TryRLock"] = func(e *Engine, s *State, f *Frame, fn *ssa.Function, args []Value, retIdx int, advance bool) (Value, bool) {
+		k := "lock:" + ptrKey(args[0].(*Pointer))
+		if s.ghost[k] > 0 {
+			return e.c.False, true
+		}
+		s.ghost[k]--
+		return e.c.True, true
 	}
 	intrinsics["(*sync.Mutex).TryLock"] = func(e *Engine, s *State, f *Frame, fn *ssa.Function, args []Value, retIdx int, advance bool) (Value, bool) {
 		k := "lock:" + ptrKey(args[0].(*Pointer))
@@ -29,7 +61,6 @@ func addSyncIntrinsics() {
 		s.ghost[k] = s.g().id + 1
 		return e.c.True, true
 	}
-	_ = lockNoop
 	intrinsics["(*sync.Once).Do"] = func(e *Engine, s *State, f *Frame, fn *ssa.Function, args []Value, retIdx int, advance bool) (Value, bool) {
 		k := "once:" + ptrKey(args[0].(*Pointer))
 		if s.ghost[k] != 0 {
@@ -53,7 +84,7 @@ func addSyncIntrinsics() {
 	intrinsics["(*sync.WaitGroup).Wait"] = func(e *Engine, s *State, f *Frame, fn *ssa.Function, args []Value, retIdx int, advance bool) (Value, bool) {
 		k := "wg:" + ptrKey(args[0].(*Pointer))
 		if s.ghost[k] > 0 {
-			e.block(s, "wg "+k)
+			e.block(s, &waitDesc{kind: "wg", key: k})
 			return tailCall, true
 		}
 		return nil, true
@@ -87,6 +118,60 @@ func addSyncIntrinsics() {
 			return e.c.False, true
 		}
 	}
+	// timers
+	intrinsics["time.AfterFunc"] = func(e *Engine, s *State, f *Frame, fn *ssa.Function, args []Value, retIdx int, advance bool) (Value, bool) {
+		fv := args[1].(*FuncV)
+		tp := e.newTimer(s, fv)
+		return tp, true
+	}
+	intrinsics["(*time.Timer).Stop"] = func(e *Engine, s *State, f *Frame, fn *ssa.Function, args []Value, retIdx int, advance bool) (Value, bool) {
+		p := args[0].(*Pointer)
+		if p.IsNil() {
+			e.fail(s, "panic", "Stop on nil Timer")
+		}
+		k := fmt.Sprintf("timer:%d", p.Obj)
+		gid := s.ghost[k] - 1
+		if gid >= 0 && gid < len(s.gs) && s.gs[gid].timerPending {
+			s.gs[gid].timerPending = false
+			s.gs[gid].done = true
+			return e.c.True, true
+		}
+		return e.c.False, true
+	}
+	intrinsics["(*time.Timer).Reset"] = func(e *Engine, s *State, f *Frame, fn *ssa.Function, args []Value, retIdx int, advance bool) (Value, bool) {
+		p := args[0].(*Pointer)
+		k := fmt.Sprintf("timer:%d", p.Obj)
+		gid := s.ghost[k] - 1
+		active := false
+		if gid >= 0 && gid < len(s.gs) && s.gs[gid].timerPending {
+			active = true
+			s.gs[gid].timerPending = false
+			s.gs[gid].done = true
+		}
+		// re-arm with the same callback
+		fv, _ := s.obj(p.Obj).Val.(*FuncV)
+		if fv != nil {
+			e.armTimer(s, p.Obj, fv)
+		}
+		return e.c.Bool(active), true
+	}
+	intrinsics[rtPkg+"Yield"] = func(e *Engine, s *State, f *Frame, fn *ssa.Function, args []Value, retIdx int, advance bool) (Value, bool) {
+		e.voluntary(s)
+		return nil, true
+	}
+	intrinsics[rtPkg+"SchedBound"] = func(e *Engine, s *State, f *Frame, fn *ssa.Function, args []Value, retIdx int, advance bool) (Value, bool) {
+		s.switchesLeft = argInt(e, args[0])
+		return nil, true
+	}
+	intrinsics[rtPkg+"Goroutines"] = func(e *Engine, s *State, f *Frame, fn *ssa.Function, args []Value, retIdx int, advance bool) (Value, bool) {
+		n := 0
+		for _, g := range s.gs {
+			if !g.done && len(g.frames) > 0 && !g.timerPending {
+				n++
+			}
+		}
+		return e.c.BV(uint64(n), 64), true
+	}
 }
 
 func mutexLock(e *Engine, s *State, f *Frame, fn *ssa.Function, args []Value, retIdx int, advance bool) (Value, bool) {
@@ -99,9 +184,10 @@ func mutexLock(e *Engine, s *State, f *Frame, fn *ssa.Function, args []Value, re
 		if h == s.g().id+1 {
 			e.fail(s, "deadlock", "mutex locked twice by the same goroutine")
 		}
-		e.block(s, k)
+		e.block(s, &waitDesc{kind: "lock", key: k})
 		return tailCall, true
 	}
+	e.preemptPoint(s)
 	s.ghost[k] = s.g().id + 1
 	return nil, true
 }
@@ -109,66 +195,252 @@ func mutexLock(e *Engine, s *State, f *Frame, fn *ssa.Function, args []Value, re
 func mutexUnlock(e *Engine, s *State, f *Frame, fn *ssa.Function, args []Value, retIdx int, advance bool) (Value, bool) {
 	p := args[0].(*Pointer)
 	k := "lock:" + ptrKey(p)
-	if s.ghost[k] == 0 {
+	if s.ghost[k] <= 0 {
 		e.fail(s, "panic", "sync: unlock of unlocked mutex")
 	}
 	s.ghost[k] = 0
 	return nil, true
 }
 
+// ---------------------------------------------------------------- scheduling
+
+func (e *Engine) enabled(s *State, g *Goroutine) bool {
+	if g.done || len(g.frames) == 0 {
+		return false
+	}
+	w := g.wait
+	if w == nil {
+		return true
+	}
+	switch w.kind {
+	case "recv":
+		co := s.obj(w.objs[0]).Val.(*ChanObj)
+		return len(co.Buf) > 0 || co.Closed
+	case "send":
+		return e.sendReady(s, w.objs[0], g)
+	case "select":
+		for i, o := range w.objs {
+			if o == 0 {
+				continue
+			}
+			co := s.obj(o).Val.(*ChanObj)
+			if w.send[i] {
+				if e.sendReady(s, o, g) {
+					return true
+				}
+			} else if len(co.Buf) > 0 || co.Closed {
+				return true
+			}
+		}
+		return false
+	case "lock":
+		return s.ghost[w.key] == 0
+	case "rlock":
+		return s.ghost[w.key] <= 0
+	case "wg":
+		return s.ghost[w.key] <= 0
+	case "never":
+		return false
+	}
+	return true
+}
+
+// sendReady: buffered: space available (or closed -> panics when executed); unbuffered: a receiver is waiting.
+func (e *Engine) sendReady(s *State, obj int, self *Goroutine) bool {
+	co := s.obj(obj).Val.(*ChanObj)
+	if co.Closed {
+		return true
+	}
+	if co.Cap > 0 {
+		return len(co.Buf) < co.Cap
+	}
+	if len(co.Buf) > 0 {
+		return false
+	}
+	for _, g := range s.gs {
+		if g == self || g.done || g.wait == nil {
+			continue
+		}
+		switch g.wait.kind {
+		case "recv":
+			if g.wait.objs[0] == obj {
+				return true
+			}
+		case "select":
+			for i, o := range g.wait.objs {
+				if o == obj && !g.wait.send[i] {
+					return true
+				}
+			}
+		}
+	}
+	return false
+}
+
 // block: the current goroutine cannot proceed at its current instruction; switch to another one.
 // The instruction is re-executed when the goroutine is scheduled again.
-func (e *Engine) block(s *State, why string) {
+func (e *Engine) block(s *State, w *waitDesc) {
+	e.usedModels = true
 	g := s.g()
-	g.waitOn = why
-	if !e.schedule(s) {
-		// nobody can run: deadlock
-		e.fail(s, "deadlock", "all goroutines blocked; current waits on "+why)
+	g.wait = w
+	if !e.schedule(s, true) {
+		panic(pathEnd{"blocked"})
 	}
 }
 
-// schedule picks the next goroutine to run. Returns false if none is runnable (path ends).
-// With several candidates the state is forked (one per candidate).
-func (e *Engine) schedule(s *State) bool {
+// schedule picks the next goroutine. mustSwitch: the current one cannot continue.
+// Returns false if the path ends (main finished, or nothing can run).
+func (e *Engine) schedule(s *State, mustSwitch bool) bool {
+	if s.gs[0].done || len(s.gs[0].frames) == 0 {
+		return false
+	}
 	var cands []int
 	for i, g := range s.gs {
-		if g.done || len(g.frames) == 0 {
+		if i == s.cur && mustSwitch {
 			continue
 		}
-		if i == s.cur && g.waitOn != "" {
+		if g.timerPending && s.noTimers {
 			continue
 		}
-		cands = append(cands, i)
-	}
-	// the main goroutine (0) finishing ends the path
-	if s.gs[0].done {
-		return false
+		if e.enabled(s, g) {
+			cands = append(cands, i)
+		}
 	}
 	if len(cands) == 0 {
-		// goroutines blocked: they may be retried only if something changed; we treat waitOn goroutines as
-		// candidates once (they re-execute their blocking instruction)
+		// nothing can run. The main goroutine is blocked forever (or waits for the environment).
+		mg := s.gs[0]
+		why := "?"
+		if mg.wait != nil {
+			why = mg.wait.kind + " " + mg.wait.key
+		}
+		if s.ghost["@allow-main-block"] == 0 {
+			e.fail(s, "deadlock", "the calling goroutine is blocked forever ("+why+") and no other goroutine can run")
+		}
 		return false
 	}
-	pick := cands[0]
-	if len(cands) > 1 {
-		for _, ci := range cands[1:] {
-			o := s.clone(e)
-			o.cur = ci
-			o.gs[ci].waitOn = ""
-			o.sched = append(o.sched, ci)
-			e.work = append(e.work, o)
-			e.paths++
-		}
+	for _, ci := range cands[1:] {
+		o := s.clone(e)
+		o.cur = ci
+		o.gs[ci].wait = nil
+		o.gs[ci].resumed = true
+		o.gs[ci].timerPending = false
+		o.sched = append(o.sched, ci)
+		e.work = append(e.work, o)
+		e.paths++
 	}
+	pick := cands[0]
 	s.cur = pick
-	s.gs[pick].waitOn = ""
+	s.gs[pick].wait = nil
+	s.gs[pick].resumed = true
+	s.gs[pick].timerPending = false
 	s.sched = append(s.sched, pick)
 	return true
 }
 
-func (e *Engine) spawn(s *State, f *Frame, fnv Value, method *types.Func, args []Value) {
-	e.errf("go statement: scheduler not enabled in this harness")
+// voluntary explores a context switch at a point where the current goroutine could continue.
+// Bounded by the per-path switch budget (verifrt.SchedBound).
+func (e *Engine) voluntary(s *State) {
+	if len(s.gs) < 2 || s.switchesLeft <= 0 {
+		return
+	}
+	g := s.g()
+	if g.resumed {
+		g.resumed = false
+		return
+	}
+	var others []int
+	for i, o := range s.gs {
+		if i == s.cur {
+			continue
+		}
+		if o.timerPending && s.noTimers {
+			continue
+		}
+		if e.enabled(s, o) {
+			others = append(others, i)
+		}
+	}
+	if len(others) == 0 {
+		return
+	}
+	e.usedModels = true
+	for _, ci := range others {
+		o := s.clone(e)
+		o.switchesLeft--
+		o.cur = ci
+		o.gs[ci].wait = nil
+		o.gs[ci].resumed = true
+		o.gs[ci].timerPending = false
+		o.sched = append(o.sched, ci)
+		// the preempted goroutine re-executes its instruction when resumed, without being preempted again there
+		o.gs[s.cur].resumed = true
+		e.work = append(e.work, o)
+		e.paths++
+	}
 }
+
+// preemptPoint is called by synchronisation operations before they take effect.
+func (e *Engine) preemptPoint(s *State) {
+	if s.preemptSync {
+		e.voluntary(s)
+	} else if g := s.g(); g.resumed {
+		g.resumed = false
+	}
+}
+
+func (e *Engine) spawn(s *State, f *Frame, fnv Value, method *types.Func, args []Value) {
+	e.usedModels = true
+	var fn *ssa.Function
+	var bindings []Value
+	if method != nil {
+		iv := fnv.(*IfaceV)
+		if iv.T == nil {
+			e.fail(s, "panic", "go on nil interface method")
+		}
+		fn = e.prog.LookupMethod(iv.T, method.Pkg(), method.Name())
+		args = append([]Value{iv.V}, args...)
+	} else {
+		fv := fnv.(*FuncV)
+		if fv.Fn == nil {
+			e.fail(s, "panic", "go of nil func")
+		}
+		fn, bindings = fv.Fn, fv.Bindings
+	}
+	if len(s.gs) >= 12 {
+		e.errf("more than 12 goroutines")
+	}
+	f.ip++
+	// gopool.Go(fn) and friends are redirected here by intrinsics as well
+	ng := &Goroutine{id: len(s.gs)}
+	if h := e.lookupIntrinsic(fn); h != nil || len(fn.Blocks) == 0 {
+		// a goroutine whose body is a model/no-op: run the intrinsic synchronously
+		if h != nil {
+			h(e, s, f, fn, args, -1, false)
+		}
+		return
+	}
+	ng.frames = []*Frame{e.newFrame(fn, args, bindings, -1)}
+	s.gs = append(s.gs, ng)
+}
+
+func (e *Engine) newTimer(s *State, fv *FuncV) *Pointer {
+	o := e.newObj(s, fv, nil, "timer@"+e.curPos(s))
+	e.armTimer(s, o.ID, fv)
+	return &Pointer{Obj: o.ID}
+}
+
+func (e *Engine) armTimer(s *State, obj int, fv *FuncV) {
+	e.usedModels = true
+	if len(s.gs) >= 12 {
+		e.errf("more than 12 goroutines (timers)")
+	}
+	ng := &Goroutine{id: len(s.gs), timerPending: true}
+	ng.frames = []*Frame{e.newFrame(fv.Fn, nil, fv.Bindings, -1)}
+	s.gs = append(s.gs, ng)
+	s.ghost[fmt.Sprintf("timer:%d", obj)] = ng.id + 1
+}
+
+// ---------------------------------------------------------------- channels
 
 func (e *Engine) chanObj(s *State, ch *ChanV) *ChanObj {
 	return s.obj(ch.Obj).Val.(*ChanObj)
@@ -176,31 +448,33 @@ func (e *Engine) chanObj(s *State, ch *ChanV) *ChanObj {
 
 func (e *Engine) chanSend(s *State, f *Frame, ch *ChanV, v Value) {
 	if ch.Obj == 0 {
-		e.block(s, "send on nil chan")
+		e.block(s, &waitDesc{kind: "never", key: "send on nil chan"})
 		return
 	}
 	co := e.chanObj(s, ch)
 	if co.Closed {
 		e.fail(s, "panic", "send on closed channel")
 	}
-	if len(co.Buf) < co.Cap {
-		nb := append(append([]Value(nil), co.Buf...), v)
-		s.wobj(ch.Obj).Val = &ChanObj{Cap: co.Cap, Buf: nb, Closed: co.Closed}
-		f.ip++
+	if !e.sendReady(s, ch.Obj, s.g()) {
+		e.block(s, &waitDesc{kind: "send", objs: []int{ch.Obj}})
 		return
 	}
-	e.block(s, fmt.Sprintf("send chan %d", ch.Obj))
+	e.preemptPoint(s)
+	nb := append(append([]Value(nil), co.Buf...), v)
+	s.wobj(ch.Obj).Val = &ChanObj{Cap: co.Cap, Buf: nb, Closed: co.Closed}
+	f.ip++
 }
 
 func (e *Engine) chanRecv(s *State, f *Frame, x *ssa.UnOp, ch *ChanV, commaOk bool) Value {
 	c := e.c
 	et := x.X.Type().Underlying().(*types.Chan).Elem()
 	if ch.Obj == 0 {
-		e.block(s, "recv on nil chan")
+		e.block(s, &waitDesc{kind: "never", key: "recv on nil chan"})
 		return nil
 	}
 	co := e.chanObj(s, ch)
 	if len(co.Buf) > 0 {
+		e.preemptPoint(s)
 		v := co.Buf[0]
 		s.wobj(ch.Obj).Val = &ChanObj{Cap: co.Cap, Buf: append([]Value(nil), co.Buf[1:]...), Closed: co.Closed}
 		if commaOk {
@@ -214,7 +488,7 @@ func (e *Engine) chanRecv(s *State, f *Frame, x *ssa.UnOp, ch *ChanV, commaOk bo
 		}
 		return e.zero(et)
 	}
-	e.block(s, fmt.Sprintf("recv chan %d", ch.Obj))
+	e.block(s, &waitDesc{kind: "recv", objs: []int{ch.Obj}})
 	return nil
 }
 
@@ -231,25 +505,23 @@ func (e *Engine) chanClose(s *State, ch *ChanV) {
 
 func (e *Engine) selectOp(s *State, f *Frame, x *ssa.Select) Value {
 	c := e.c
-	// collect ready cases
-	type rc struct {
-		idx int
-	}
 	var ready []int
+	objs := make([]int, len(x.States))
+	sends := make([]bool, len(x.States))
 	for i, st := range x.States {
 		ch := e.get(s, f, st.Chan).(*ChanV)
+		objs[i] = ch.Obj
+		sends[i] = st.Dir == types.SendOnly
 		if ch.Obj == 0 {
 			continue
 		}
 		co := e.chanObj(s, ch)
 		if st.Dir == types.SendOnly {
-			if co.Closed || len(co.Buf) < co.Cap {
+			if e.sendReady(s, ch.Obj, s.g()) {
 				ready = append(ready, i)
 			}
-		} else {
-			if len(co.Buf) > 0 || co.Closed {
-				ready = append(ready, i)
-			}
+		} else if len(co.Buf) > 0 || co.Closed {
+			ready = append(ready, i)
 		}
 	}
 	mk := func(idx int, recvOk bool, recvVals map[int]Value) Value {
@@ -270,26 +542,20 @@ func (e *Engine) selectOp(s *State, f *Frame, x *ssa.Select) Value {
 		if !x.Blocking {
 			return mk(-1, false, nil)
 		}
-		e.block(s, "select")
+		e.block(s, &waitDesc{kind: "select", objs: objs, send: sends})
 		return nil
 	}
-	// choose among ready cases nondeterministically (fork)
+	e.preemptPoint(s)
+	// choose among ready cases nondeterministically
 	pick := ready[0]
 	if len(ready) > 1 {
-		ch := e.c.Var(e.FreshSched(s), 64)
-		_ = ch
-		for _, r := range ready[1:] {
-			k := fmt.Sprintf("sel:%d:%d", s.nSched, r)
-			_ = k
-		}
-		// fork via a fresh choice variable constrained per clone
-		choice := e.ndScalar(s, "@select", 64)
+		choice := e.c.Var(fmt.Sprintf("@select_%d_%d", s.steps, len(s.sched)), 8)
 		for j, r := range ready {
 			if j == len(ready)-1 {
 				pick = r
 				break
 			}
-			if e.cond(s, c.Eq(choice, c.BV(uint64(j), 64))) {
+			if e.cond(s, c.Eq(choice, c.BV(uint64(j), 8))) {
 				pick = r
 				break
 			}
@@ -312,9 +578,4 @@ func (e *Engine) selectOp(s *State, f *Frame, x *ssa.Select) Value {
 		return mk(pick, true, map[int]Value{pick: v})
 	}
 	return mk(pick, false, nil)
-}
-
-func (e *Engine) FreshSched(s *State) string {
-	s.nSched++
-	return fmt.Sprintf("@sched%d_%d", s.id, s.nSched)
 }
